@@ -4,10 +4,10 @@
 # HEAD + copy of the harness under /tmp/lanes/<n>), and writes seeded/sweep_results.tsv
 # (id, property, outcome). Not used by any registered command; /repo itself is not touched.
 set -u
-LANES="${1:-4}"
+LANES="${1:-4}"; FILTER="${2:-.}"   # second argument: regex on the seed id, e.g. "C0[23]"
 ROOT=/tmp/lanes
 mkdir -p $ROOT
-ls -d /verif/seeded/C??? 2>/dev/null | xargs -n1 basename | sort > $ROOT/all.txt
+ls -d /verif/seeded/C??? 2>/dev/null | xargs -n1 basename | grep -E "$FILTER" | sort > $ROOT/all.txt
 split -n l/$LANES -d $ROOT/all.txt $ROOT/part.
 lane() {
     n=$1; L=$ROOT/$n
@@ -37,7 +37,8 @@ lane() {
 }
 for n in $(seq 0 $((LANES-1))); do lane $n & done
 wait
-cat $ROOT/*/results.tsv | sort > /verif/seeded/sweep_results.tsv
+if [ "$FILTER" = . ]; then OUT=/verif/seeded/sweep_results.tsv; else OUT=/tmp/sweep_partial.tsv; fi
+cat $ROOT/*/results.tsv | sort > $OUT
 for n in $(seq 0 $((LANES-1))); do git -C /repo worktree remove --force $ROOT/$n/repo; done
 rm -rf $ROOT
-awk -F'\t' '{c[$3]++} END {for (k in c) print k, c[k]}' /verif/seeded/sweep_results.tsv
+awk -F'\t' '{c[$3]++} END {for (k in c) print k, c[k]}' $OUT; grep -v VIOLATION $OUT
